@@ -56,4 +56,12 @@ theorem decode_wf (v : SerdeTag) : (decode v).wf := by
 
 #print axioms decode_encode
 #print axioms decode_total
+/-- a whole event: its tag list survives tag by tag (metadata is a string map handed to serde unchanged) -/
+theorem tags_round_trip (ts : List Tag) (h : ∀ t ∈ ts, t.wf) : (ts.map encode).map decode = ts := by
+  induction ts with
+  | nil => rfl
+  | cons t ts ih =>
+    simp only [List.map_cons]
+    rw [decode_encode t (h t List.mem_cons_self), ih (fun t' ht' => h t' (List.mem_cons_of_mem _ ht'))]
+
 end Wp
